@@ -175,6 +175,7 @@ def tlc_mc(run, module, cfg, workers=8, timeout=900, overrides=None, tag="mc", c
         acts[am.group(1)] = acts.get(am.group(1), 0) + int(am.group(4))
     res["actions"] = acts
     res["out_tail"] = out[-1500:]
+    res["out_all"] = out
     if not res["ok"] and not res["timeout"] and expect_violation is None:
         open(os.path.join(VERIF, "run", "last-mc-error.out"), "w").write(out)
     return res
